@@ -1,4 +1,7 @@
 fn main() -> Result<(), Box<dyn std::error::Error>> {
+    // `asynchronix_verif` flag: verification hooks (see src/verif_hooks.rs); off by default.
+    println!("cargo:rustc-check-cfg=cfg(asynchronix_verif)");
+
     #[cfg(nexosim_grpc_codegen)]
     tonic_build::configure()
         .build_client(false)
